@@ -1,19 +1,19 @@
 """C16 — the other generated systems keep their specs' safety invariants (DESIGN §4 C16).
 One typed model + proofs per system under coq/C16/, one harness (cmd/c16, `system` field per case),
 per-system generation / oracle / projection in lib/c16_<system>.py."""
-import json, os, re
+import json, os, re, time
 from concurrent.futures import ThreadPoolExecutor
 import vlib
-import c16_dqueue, c16_shcounter, c16_loadbalancer, c16_gcounter, c16_proxy, c16_shopcart, c16_nested, c16_replicatedkv, c16_gotests
+import c16_dqueue, c16_shcounter, c16_loadbalancer, c16_gcounter, c16_proxy, c16_shopcart, c16_nested, c16_replicatedkv, c16_gotests, c16_shopnode
 
 ID = "C16"
 THEOREMS = "Properties/C16.v"
 HARNESS = ["c16"]
 LEVEL = "proof"
 READY = True
-SYSTEMS = [c16_dqueue, c16_shcounter, c16_loadbalancer, c16_gcounter, c16_proxy, c16_shopcart, c16_nested, c16_replicatedkv] + c16_gotests.PROGRAMS
+SYSTEMS = [c16_dqueue, c16_shcounter, c16_loadbalancer, c16_gcounter, c16_proxy, c16_shopcart, c16_shopnode, c16_nested, c16_replicatedkv] + c16_gotests.PROGRAMS
 # walks per system: quick, thorough
-BUDGET = {"dqueue": (12, 1200), "shcounter": (6, 400), "loadbalancer": (10, 1000), "gcounter": (8, 800), "proxy": (10, 800), "shopcart": (8, 600), "nestedcrdtimpl": (8, 700), "replicatedkv": (4, 100)}
+BUDGET = {"dqueue": (10, 1200), "shcounter": (5, 400), "loadbalancer": (8, 1000), "gcounter": (7, 800), "proxy": (8, 800), "shopcart": (7, 600), "shopnode": (6, 500), "nestedcrdtimpl": (7, 700), "replicatedkv": (4, 100)}
 BUDGET.update(c16_gotests.BUDGET)
 
 TRUSTED_BASE = [
@@ -29,13 +29,15 @@ TRUSTED_BASE = [
 ASSUMPTIONS = [
     "labels are atomic steps (C01) over the specs' network models (C06)",
     "dqueue: consumers are self in 1..NUM_CONSUMERS, PRODUCER = 0",
-    "shcounter: cntr is one atomic variable (C11); proxy: PerfectFD mapping and NUM_SERVERS < 100; loadbalancer: NUM_SERVERS > 0 for assertion freedom",
+    "shcounter: cntr is one atomic variable (C11); proxy: PerfectFD mapping (the property's clause; proxy.tla itself instantiates PracticalFD and says ProxyOK 'only holds if PerfectFD is used') and NUM_SERVERS < 100, which is the spec's own encoding (FAIL == 100 is the answer body that means failure; a server answers with its id); loadbalancer: NUM_SERVERS > 0 for assertion freedom",
+    "shopcart ANode: the input queue only names elements of ElemSet (type safety); replicatedkv: none beyond the spec's constants",
     "gcounter / shopcart / nestedcrdtimpl: the spec processes that are not archetypes (UpdateGCntr, UpdateCRDT, Node) are Go transcriptions driven as environment actions",
 ]
 RULE = ("cases = schedules per system from one PRNG (VERIF_SEED): seeded online random walks of the harness (steplib.Walker) and blind explicit "
         "schedules, over the instance sizes listed in input_distribution; corpus first. Non-trivial: dqueue = the producer's mailbox held >= 2 requests or >= 3 items "
         "were produced; shcounter = >= 2 nodes and a node had to wait; loadbalancer = >= 2 pages received through >= min(2, NUM_SERVERS) servers; gcounter / shopcart = "
-        ">= 2 nodes and >= 2 merges; proxy = a request answered and (a server failed or >= 2 answers); nestedcrdtimpl = a committed section and (1 node or a peer merge); "
+        ">= 2 nodes and >= 2 merges; proxy = a request answered and (a server failed or >= 2 answers); nestedcrdtimpl = a committed section and (1 node or a peer merge); shopnode = an Add and a Remove applied and (1 node or a merge); replicatedkv = a client operation completed; "
+        "a *.gotests program = it ran to completion (echo server: >= 2 echoes; PBFail4: a client finished); "
         "distinct by the schedule actually taken.")
 
 
@@ -71,6 +73,7 @@ def run(ctx):
     byid = {}
     BATCH = 300
     payload = [{k: v for k, v in c.items() if k in ("id", "system", "cfg", "sched", "auto")} for c in cases]
+    t_h = time.time()
     for b0 in range(0, len(cases), BATCH):
         rc, res, err = vlib.run_jsonl("c16", payload[b0:b0 + BATCH], timeout=1800)
         got = {r["id"]: r for r in res}
@@ -109,6 +112,7 @@ def run(ctx):
                 walks[c["system"]].append((a, r))
             if len(ctx.failures) > 200 or len(ctx.breaks) > 200:
                 break
+    ctx.extra["seconds_harness_and_oracles"] = round(time.time() - t_h, 1)
     ctx.extra["input_distribution"] = dist
     ctx.extra["steps_total"] = steps_total
     ctx.extra["step_outcomes"] = outcomes
@@ -134,8 +138,11 @@ def run(ctx):
             body = ("From PGV Require Import %s.\nDefinition walks : list walk :=\n [" % m.COQ_MODULE +
                     ";\n ".join(a["coq"] for (a, _) in part) + "].\n"
                     "Definition M := Eval vm_compute in mismatches_from 0 walks.\nPrint M.\n")
-            return vlib.coq_eval("C16_%s_%d" % (m.NAME, s), body, timeout=420)
-        with ThreadPoolExecutor(max_workers=4) as ex:
+            t0 = time.time()
+            r = vlib.coq_eval("C16_%s_%d" % (m.NAME, s), body, timeout=420)
+            ctx.extra.setdefault("seconds_coq_tie", {})["%s_%d" % (m.NAME, s)] = round(time.time() - t0, 1)
+            return r
+        with ThreadPoolExecutor(max_workers=5) as ex:
             results = list(ex.map(eval_shard, jobs))
         detailed = 0
         for (m, s, part), (rc, out, err) in zip(jobs, results):
@@ -167,7 +174,8 @@ MANIFEST = {
     "category": "proof",
     "technique": "Coq proofs (inductive invariants over one typed transition system per generated system, any instance size) + step-level differential "
                  "correspondence of each model with the generated Go archetypes (steplib)",
-    "text": ("PARTIAL. Theorems in coq/Properties/C16.v, all closed under the global context, for every instance size and every event list (= every "
+    "text": ("Every system the property names has a typed model, proofs and a differential tie; oracle-only remain replicatedkv's TLA+ type errors and six of the "
+             "eight *.gotests programs (two spec-level assertion failures among them are known findings). Theorems in coq/Properties/C16.v, all closed under the global context, for every instance size and every event list (= every "
              "interleaving and either/with resolution). dqueue (complete): buffer bound; per consumer production indices sent = consumed ++ in flight, indices "
              "distinct, consumed only by the requester and never by two consumers; k-th item goes to the k-th received request; an item is in flight only to a "
              "consumer waiting at c2; type safety. shcounter (complete, cntr atomic by assumption = C11): cntr counts the nodes past update, never decreases, never "
@@ -178,9 +186,9 @@ MANIFEST = {
              "shopcart (complete for the instance the spec declares, ANodeBench + AWORSet): StrongConvergence, QueryOK, equal knowledge => equal query, add clocks monotone, "
              "remove maps stay Null, no ill-typed step. "
              "proxy (complete): ProxyOK under the perfect failure detector and NUM_SERVERS < 100, FAIL reported only if all servers stopped, FD accuracy; "
-             "assertion/type freedom incl. the client's resp.id = reqId (one-outstanding-request token invariant). nestedcrdtimpl: MonotonicState (no component of any replica state decreases in any step), view never decreases; StateSanity as written in the spec is refuted (it sums over SETS; known finding, witness replayed on the generated code) and the bound it intends (no replica shows more than the writes issued) is proved, with the handshake / write-accounting invariants and the Node's assertion freedom; only type-safety of the with-chosen send target is oracle-only. replicatedkv: no model and no theorem, assertion-freedom walks only (oracle: failed assertion / TLA+ type error / crash in any of its five archetypes). The *.gotests programs: NOT covered. Tie: the generated archetypes "
+             "assertion/type freedom incl. the client's resp.id = reqId (one-outstanding-request token invariant). nestedcrdtimpl: MonotonicState (no component of any replica state decreases in any step), view never decreases; StateSanity as written in the spec is refuted (it sums over SETS; known finding, witness replayed on the generated code) and the bound it intends (no replica shows more than the writes issued) is proved, with the handshake / write-accounting invariants and the Node's assertion freedom; and type safety (the with-chosen send target is always a resource id). shopcart ANode (the interactive archetype, whole AWORSet with removes, shared input queue; own model ShopNode.v): clocks live on NodeSet, an element never has both an add and a remove clock, the answer is exactly the elements with an add clock, Merge's assertions hold, type safety for inputs over ElemSet; monotonicity of the raw clocks is refuted once removes exist (it is an ANodeBench statement). replicatedkv (28 labels, typed model Rkv.v, tie): no assertion written in the spec fails (all four: msg.client \\in liveClients, firstPending.op, getResp.type, putResp.type), via message typing + 'no Get of c is queued or held at a replica that has disconnected c'; type errors oracle-only. The *.gotests programs (hello, IndexingLocals, NonDetExploration, bug2_124, PBFail4_bug125, bug_119, ProcedureSpaghetti, ExprTests) run under the same walks with the assertion / type-error / crash oracle and each program's expected values; models + theorems for IndexingLocals (type safe, final log and p) and NonDetExploration (AComplex's assertion fails EXACTLY when the with chose the same element all 20 times: refuted as the spec itself announces; known finding with witness). PBFail4 with >= 3 replicas fails its own `assert rep.from = idx` (acks out of order; known finding with witness; walks use <= 2 replicas). Tie: the generated archetypes "
              "run under the real Run loop one attempt at a time over spec-state resources (the specs' mapping macros); each model runs the same schedule in Coq; every "
              "post-state and outcome compared; implementation-side oracles per system on the Go observations."),
-    "level_note": ("Partial as stated per system; systems not modelled are not covered. Trusted: Coq kernel; hand-written models (differential tie: 66 quick / 5600 thorough "
-                   "walks + corpus); spec-state resources replacing the deployment resources; gcounter's merge process is a Go transcription of the spec process."),
+    "level_note": ("Per system as stated in the text. Trusted: Coq kernel; hand-written models (differential tie: 81 quick / 7400 thorough "
+                   "walks + corpus); replicatedkv's TLA+ type errors and the gotests programs other than IndexingLocals / NonDetExploration are oracle-only; spec-state resources replacing the deployment resources; gcounter's merge process is a Go transcription of the spec process."),
 }
